@@ -190,15 +190,15 @@ class UnusedTranslator:
             """places the new arguments inside the symbol (and returns it)
             given by order of self.arguments"""
 
-            def replace(input_: AST, old: AST, new: AST) -> AST:
-                if input_ == old:
-                    return new
-                return input_
+            # all head arguments are replaced at once: the arguments of the use may carry the names of the head variables
+            substitution = dict(zip(self.arguments, arguments))
+
+            def replace(input_: AST) -> AST:
+                return substitution.get(input_, input_)
 
             args = deepcopy(list(self.symbol.arguments))
             for index, _ in enumerate(args):
-                for head_arg, new_arg in zip(self.arguments, arguments):
-                    args[index] = transform_ast(args[index], "Variable", partial(replace, old=head_arg, new=new_arg))
+                args[index] = transform_ast(args[index], "Variable", replace)
 
             old_vars: set[AST] = set()
             for arg in arguments:
